@@ -131,6 +131,7 @@ type objInfo struct {
 	writes   []string // receiver fields the methods may write (spec writes:Type.field:...)
 	concrete bool     // the state is not abstract: a named map type of another package
 	methods  map[string]*fnType
+	selfRes  map[string]bool // methods whose only result is a pointer to the object's own struct (the receiver handed back): no result
 }
 
 func baseAndArgs(e ast.Expr) (ast.Expr, []ast.Expr) {
@@ -303,7 +304,25 @@ func (c *fnCtx) objMethodType(fv *fnVar, m string, at ast.Node) *fnType {
 			if fd.Recv == nil {
 				ft = c.goType(fd.Type)
 			} else {
-				c.withTypeArgs(names, o.targs, at, func() { ft = c.goType(fd.Type) })
+				typ := fd.Type
+				if r := fd.Type.Results; r != nil && len(r.List) == 1 && len(r.List[0].Names) == 0 {
+					if st, ok := r.List[0].Type.(*ast.StarExpr); ok {
+						if b, _ := baseAndArgs(st.X); b != nil {
+							if id, ok := b.(*ast.Ident); ok && id.Name == o.tname && returnsOnlyRecv(fd) {
+								// func (c *Cursor[T]) Next() *Cursor[T] { ...; return c }: the receiver
+								// handed back: no result (a call used for its value is lost)
+								cp := *fd.Type
+								cp.Results = nil
+								typ = &cp
+								if o.selfRes == nil {
+									o.selfRes = map[string]bool{}
+								}
+								o.selfRes[m] = true
+							}
+						}
+					}
+				}
+				c.withTypeArgs(names, o.targs, at, func() { ft = c.goType(typ) })
 			}
 		}()
 	}
@@ -433,6 +452,8 @@ func (c *fnCtx) typeKnownExtra(key string) {
 		}
 		typ = kt.coq() + " -> " + kt.coq() + " -> bool"
 		mention = []*fnType{kt}
+	case strings.HasPrefix(key, "objnil:"):
+		typ = "bool"
 	case strings.HasPrefix(key, "obj:"):
 		fm := strings.TrimPrefix(key, "obj:")
 		i := strings.IndexByte(fm, '.')
@@ -495,6 +516,13 @@ func (c *fnCtx) objCall(fv *fnVar, m string, v *ast.CallExpr, pre *[]fnBind, wan
 	x := c.extras["obj:"+o.field+"."+m]
 	if x == nil {
 		c.lostAt(v, "call of %s.%s here", o.field, m)
+	}
+	if o.selfRes[m] {
+		for _, w := range want {
+			if w != "" {
+				c.lostAt(v, "the receiver returned by %s.%s used as a value", o.field, m)
+			}
+		}
 	}
 	snap := c.rangedSnapshot(pre, fv)
 	s := x.name + " " + fv.name
